@@ -40,7 +40,10 @@ func (g *Generator) parseManual(srcType, destType types.Type) []string {
 						recvTypeExpr = expr.X
 						isRecvPtr = true
 					default:
-						panic("can never happen")
+						if types.Identical(pkg.TypesInfo.TypeOf(recv.Type), srcType) {
+							logx.Fatalf("(%s).%s: reserved func must have a pointer receiver", types.ExprString(recv.Type), fn.Name.Name)
+						}
+						continue
 					}
 
 					recvType := pkg.TypesInfo.TypeOf(recvTypeExpr)
